@@ -7,6 +7,8 @@ import (
 	"fmt"
 	"net"
 	"reflect"
+	"slices"
+	"sort"
 	"strings"
 
 	"github.com/c2FmZQ/ech/dns"
@@ -323,7 +325,7 @@ func checkRefMessage(r *ev.Run, m *dnsref.Msg, tag string) {
 }
 
 func Run(r *ev.Run) {
-	r.Rule("E1 exhaustive families: (A) package-built messages: all 2^5 header flag combinations x opcode{0,15} x rcode{0,3,15}; name pool (0,1,2,127 labels; label length 1/63) in question, owner and RDATA position; A/AAAA/NS/CNAME/PTR/OPT(0..2 options)/HTTPS(every subset of 7 parameters) records; every message with <=2 records per section over a record pool -> round trip, independent decoder, x/net dnsmessage; (B) reference-built packets incl. MX/SOA/TXT/SRV/SVCB(arbitrary params), uncompressed and maximally compressed, every message with <=2 records per section -> DecodeMessage must agree; x/net-packed packets likewise; reference-built messages of 8..16 KiB whose compression pointers target offsets above 8192; question names spelled with a final dot (and the dot alone); (C) extended RCODE; (D) AddPadding for question names of every length 1..253 x OPT states x extra records. distinct = distinct wire strings")
+	r.Rule("E1 exhaustive families: (A) package-built messages: all 2^5 header flag combinations x opcode{0,15} x rcode{0,3,15}; name pool (0,1,2,127 labels; label length 1/63) in question, owner and RDATA position; A/AAAA/NS/CNAME/PTR/OPT(0..2 options)/HTTPS(every subset of 7 parameters) records; every message with <=2 records per section over a record pool -> round trip, independent decoder, x/net dnsmessage; (B) reference-built packets incl. MX/SOA/TXT/SRV/SVCB(arbitrary params), uncompressed and maximally compressed, every message with <=2 records per section -> DecodeMessage must agree; x/net-packed packets likewise; reference-built messages of 8..16 KiB whose compression pointers target offsets above 8192; question names spelled with a final dot (and the dot alone); HTTPS records from another encoder carrying keys 0/7/9/65280/65535 next to representable ones; (C) extended RCODE; (D) AddPadding for question names of every length 1..253 x OPT states x extra records x query/response header. distinct = distinct wire strings")
 	r.Assume("dnsref (independent codec) and x/net dnsmessage v0.42.0 are correct", "HTTPS records use parameter keys 1..6 in ascending order (the package's HTTPS struct cannot represent others); label bytes are LDH and contain no dots")
 	names := namePool()
 
@@ -618,6 +620,53 @@ func Run(r *ev.Run) {
 		r.Eval(string(wire), "decode-ok-xnet")
 	})
 
+	// ---- B2 HTTPS (type 65) records from another encoder that carry parameters the HTTPS struct cannot hold (key 0 "mandatory",
+	// key 7, private-use keys) next to the ones it can: such a record is valid RFC 9460 and must decode, with the representable
+	// parameters intact ----
+	{
+		rep := []dnsref.Param{dnsref.ParamALPN("h2"), dnsref.ParamPort(8443), dnsref.ParamIPv4(ip4a)}
+		foreign := [][]dnsref.Param{
+			{{Key: 0, Value: []byte{0, 1}}},
+			{{Key: 0, Value: []byte{0, 1, 0, 3}}, {Key: 7, Value: []byte("/dns-query{?dns}")}},
+			{{Key: 7, Value: []byte("/q")}},
+			{{Key: 65280, Value: nil}},
+			{{Key: 0, Value: []byte{0, 1}}, {Key: 9, Value: []byte{1}}, {Key: 65535, Value: []byte{2}}},
+		}
+		for fi, fp := range foreign {
+			for _, withRep := range []bool{false, true} {
+				all := slices.Clone(fp)
+				var kept []dnsref.Param
+				if withRep {
+					all = append(all, rep...)
+					kept = rep
+				}
+				sort.SliceStable(all, func(i, j int) bool { return all[i].Key < all[j].Key })
+				m := &dnsref.Msg{ID: 9, Flags: 0x8180, Q: []dnsref.Question{{Name: "h.example", Type: 65, Class: 1}}}
+				m.Sec[0] = []dnsref.RR{{Name: "h.example", Type: 65, Class: 1, TTL: 60, Fields: dnsref.SVCB(1, "", all)}}
+				want := &dnsref.Msg{ID: 9, Flags: 0x8180, Q: m.Q}
+				want.Sec[0] = []dnsref.RR{{Name: "h.example", Type: 65, Class: 1, TTL: 60, Fields: dnsref.SVCB(1, "", kept)}}
+				tag := fmt.Sprintf("https-foreign-params:%d", fi)
+				wire := m.Encode(false)
+				func() {
+					defer func() {
+						if p := recover(); p != nil {
+							r.Violation("panic-decode:"+tag, fmt.Sprint(p), fmt.Sprintf("%x", wire))
+						}
+					}()
+					got, err := dns.DecodeMessage(wire)
+					if err != nil {
+						r.Violation("decode-rejects-valid:"+tag, fmt.Sprintf("DecodeMessage rejects a valid HTTPS record carrying parameter keys %v: %v", keysOfParams(all), err), fmt.Sprintf("%x", wire))
+						return
+					}
+					if g, err := fromPkg(got); err != nil || g.Canon() != want.Canon() {
+						r.Violation("decode-differs:"+tag, fmt.Sprintf("representable parameters differ (%v):\n got  %s\n want %s", err, g.Canon(), want.Canon()), fmt.Sprintf("%x", wire))
+					}
+					r.Eval(string(wire), "decode-ok-foreign-params")
+				}()
+			}
+		}
+	}
+
 	// ---- C extended RCODE ----
 	for rc := 0; rc < 16; rc++ {
 		for _, hi := range []uint32{0, 1, 0x80, 0xff} {
@@ -654,14 +703,16 @@ func Run(r *ev.Run) {
 		QType   string `json:"qtype"`
 	}
 	optStates := []string{"none", "empty", "other-options", "stale-padding", "stale-padding-twice", "opt-not-last"}
-	pp := enum.Product{253, len(optStates), 2, 2}
+	pp := enum.Product{253, len(optStates), 2, 2, 2}
 	enum.ParallelFor(pp.Size(), func(i int) {
 		d := pp.Decode(i)
 		nl := d[0] + 1
 		pc := padCase{nl, optStates[d[1]], d[2], []string{"HTTPS", "A"}[d[3]]}
 		name := lenName(nl)
-		m := dns.Message{RD: 1, Question: []dns.Question{{Name: name, Type: dns.RRType(pc.QType), Class: 1}}}
-		switch pc.OPT {
+		// (the guarantee is about every message: responses - QR=1, with RA/AA - as well as queries)
+		m := dns.Message{RD: 1, QR: uint8(d[4]), RA: uint8(d[4]), AA: uint8(d[4] & d[3]), Question: []dns.Question{{Name: name, Type: dns.RRType(pc.QType), Class: 1}}}
+		pc.OPT += []string{"", ":response"}[d[4]]
+		switch optStates[d[1]] {
 		case "empty":
 			m.Additional = []dns.RR{{Type: 41, Class: 4096, Data: []dns.Option{}}}
 		case "other-options":
@@ -712,7 +763,7 @@ func Run(r *ev.Run) {
 			if ref, err := dnsref.Decode(wire); err != nil || len(ref.Q) != 1 || ref.Q[0].Name != name {
 				r.Violation("padding-ref:"+pc.OPT, fmt.Sprintf("independent decoder: %v", err), pc)
 			}
-			r.Eval(fmt.Sprintf("pad:%d:%d:%d:%d", nl, d[1], d[2], d[3]), fmt.Sprintf("padded-to-%d", len(wire)))
+			r.Eval(fmt.Sprintf("pad:%d:%d:%d:%d:%d", nl, d[1], d[2], d[3], d[4]), fmt.Sprintf("padded-to-%d", len(wire)))
 		}()
 		if i == 4242 {
 			r.Sample(pc)
@@ -722,6 +773,14 @@ func Run(r *ev.Run) {
 }
 
 // lenName returns a name whose presentation form has exactly n bytes (labels <= 63).
+func keysOfParams(ps []dnsref.Param) []uint16 {
+	var out []uint16
+	for _, p := range ps {
+		out = append(out, p.Key)
+	}
+	return out
+}
+
 func lenName(n int) string {
 	var b strings.Builder
 	for b.Len() < n {
